@@ -86,6 +86,21 @@ Definition chk_prom (c : prom_case) : bool :=
   let sys := {| ps_rungs := map (fun lq => {| pr_level := fst lq; pr_quant := snd lq; pr_data := [] |}) rungs;
                 ps_running := [] |} in
   list_eqb pout_eqb (snd (prun (md_of is_min) max_t sys (map fst calls))) (map snd calls).
+
+(* MOASHA shell (one bracket): (per-metric is_min, rf, max_t, milestones high first, calls (is_complete, trial, cur_iter,
+   reported values, observed decision: Some true = CONTINUE, Some false = STOP, None = on_trial_complete)) ;
+   the priority handed to MOASHA by the harness is the first signed objective *)
+Definition moseq_case := (list bool * Q * Q * list Q * list (bool * Z * Q * list Q * option bool))%type.
+Definition first_objective (X : list Pareto.vec) : list Q := map (fun v => nth 0 v 0) X.
+Definition modec (d : option Pareto.decision) : option bool :=
+  match d with None => None | Some Pareto.CONTINUE => Some true | Some Pareto.STOP => Some false end.
+Definition chk_moseq (c : moseq_case) : bool :=
+  let '(modes, rf, max_t, ms, calls) := c in
+  let b := map (fun m => {| Pareto.milestone := m; Pareto.recorded := [] |}) ms in
+  let evs := map (fun cl : bool * Z * Q * list Q * option bool =>
+                    let '(cmpl, t, it, vals, _) := cl in if cmpl then MoComplete t it vals else MoResult t it vals) calls in
+  list_eqb (opt_eqb Bool.eqb) (map modec (snd (mo_run first_objective rf max_t (map md_of modes) b evs)))
+           (map (fun cl : bool * Z * Q * list Q * option bool => snd cl) calls).
 """
 
 KINDS = ["hb_stopping", "hb_promotion", "hb_pasha", "hb_rush_stopping", "hb_rush_promotion",
@@ -729,6 +744,33 @@ def unit_cases2(ctx, replay):
         for i in ctx.coq_bad_cases("mo", IMPORTS, PRELUDE, "chk_mo", terms, shard=200):
             ctx.violation("correspondence", "model moasha_metric_dict differs from MOASHA", case=cases[i // 2],
                           failing_input=False, broken="correspondence chk_mo (model/ModeCores.v moasha_metric_dict)")
+    # ---- MOASHA call sequences incl. on_trial_complete (one bracket, priority = first signed objective) ----
+    cases = []
+    if replay is None:
+        for _ in range(ctx.n(120, 1500)):
+            nmet = rng.randint(1, 3)
+            style = rng.choice(["list", "list", "str", "none"])
+            modes = [rng.choice(["min", "max"]) for _ in range(nmet)] if style == "list" else (
+                rng.choice(["min", "max"]) if style == "str" else None)
+            cases.append(dict(kind="moseq", modes=modes, nmet=nmet, max_t=rng.choice([9, 27]), rf=3, grace=1,
+                              trials=rng.randint(2, 8), steps=rng.randint(5, 60), script_seed=rng.randint(0, 10 ** 9)))
+    elif replay.get("kind") == "moseq":
+        cases = [replay]
+    terms = []
+    for c in cases:
+        calls = run_moasha_script(c)
+        per = c["modes"] if isinstance(c["modes"], list) else [c["modes"] or "min"] * c["nmet"]
+        ctx.count(("moseq", c), nontrivial=any(cl[0] for cl in calls) and any(cl[4] is False for cl in calls))
+        ctx.h("unit_kind", "moasha_sequence")
+        ms = [c["grace"] * c["rf"] ** k for k in reversed(range(int(np.log(c["max_t"] / c["grace"]) / np.log(c["rf"]) + 1)))]
+        terms.append("((%s, %s, %s, %s, %s) : moseq_case)" % (
+            lst([blit(md == "min") for md in per]), q(c["rf"]), q(c["max_t"]), lst([q(m) for m in ms]),
+            lst(["(%s, %s, %s, %s, %s)" % (blit(cl[0]), zlit(cl[1]), q(cl[2]), lst([q(v) for v in cl[3]]), optlit(cl[4], blit))
+                 for cl in calls])))
+    if terms:
+        for i in ctx.coq_bad_cases("moseq", IMPORTS, PRELUDE, "chk_moseq", terms, shard=60):
+            ctx.violation("correspondence", "model MOASHA shell (mo_run) differs from MOASHA", case=cases[i],
+                          failing_input=False, broken="correspondence chk_moseq (model/ModeCores.v mo_step, model/Pareto.v bracket)")
     # ---- ExperimentResult.best_config ----
     import pandas as pd
     from syne_tune.experiments.experiment_result import ExperimentResult
@@ -804,6 +846,48 @@ def unit_cases2(ctx, replay):
         for i in ctx.coq_bad_cases("prom", IMPORTS, PRELUDE, "chk_prom", terms, shard=40):
             ctx.violation("correspondence", "model promotion rung system differs from PromotionRungSystem", case=cases[i],
                           failing_input=False, broken="correspondence chk_prom (model/ModeCores.v prun)")
+
+
+class FirstObjective:
+    """harness-side MOPriority: the first (signed) objective"""
+
+    def __call__(self, objectives):
+        return np.array(objectives, dtype=float)[:, 0]
+
+
+def run_moasha_script(c):
+    """Calls on the real MOASHA (one bracket): sparse on_trial_result reports and on_trial_complete with a new result."""
+    import random as _random
+    from syne_tune.optimizer.schedulers.multiobjective.moasha import MOASHA
+    from syne_tune.config_space import uniform
+    sch = MOASHA({"x": uniform(0, 1)}, metrics=["m%d" % i for i in range(c["nmet"])], mode=c["modes"], time_attr="epoch",
+                 multiobjective_priority=FirstObjective(), max_t=c["max_t"], grace_period=c["grace"],
+                 reduction_factor=c["rf"], brackets=1)
+    rng = _random.Random(c["script_seed"])
+    calls, live, res = [], [], {}
+    with contextlib.redirect_stdout(io.StringIO()):
+        for t in range(c["trials"]):
+            sch.on_trial_add(U.mk_trial(t, {"x": 0.5}))
+            live.append(t)
+            res[t] = 0
+        for _ in range(c["steps"]):
+            if not live:
+                break
+            t = rng.choice(live)
+            res[t] += rng.choice([1, 1, 2, 3])
+            vals = [rng.choice([rng.uniform(-2, 2), float(rng.randint(-2, 2))]) for _ in range(c["nmet"])]
+            result = dict({"epoch": res[t]}, **{"m%d" % i: v for i, v in enumerate(vals)})
+            if rng.random() < 0.2:
+                sch.on_trial_complete(U.mk_trial(t, {"x": 0.5}), result)
+                calls.append((True, t, res[t], vals, None))
+                live.remove(t)
+            else:
+                d = sch.on_trial_result(U.mk_trial(t, {"x": 0.5}), result)
+                calls.append((False, t, res[t], vals, d == "CONTINUE"))
+                if d != "CONTINUE":
+                    sch.on_trial_remove(U.mk_trial(t, {"x": 0.5}))
+                    live.remove(t)
+    return calls
 
 
 # rung systems whose quantile never coincides with a rung entry for the numbers of trials used
